@@ -1,6 +1,7 @@
 package checks
 
 import (
+	"bufio"
 	"bytes"
 	"encoding/json"
 	"fmt"
@@ -106,10 +107,48 @@ func c12Body(c *c12Case, results *[2]string) func() {
 	case "parsefile2":
 		return par(func() string { return parseObsStr(impl.ParseFile(impl.NewScriptFile(c.A, c.Script))) },
 			func() string { return parseObsStr(impl.ParseFile(impl.NewScriptFile(c.B, c.Script))) })
+	case "defaults2":
+		// two independent calls that pass NO output / logger option (the library's defaults are process-wide)
+		return par(func() string {
+			bl, bi, err := bcl.Interpret([]byte(c.A))
+			return impl.Ran{Blocks: bl, Binding: bi, Err: err}.Summary()
+		}, func() string {
+			bl, bi, err := bcl.Interpret([]byte(c.B))
+			return impl.Ran{Blocks: bl, Binding: bi, Err: err}.Summary()
+		})
+	case "loadbufio2":
+		// each caller loads two programs one after the other from its OWN *bufio.Reader (8 KiB) holding two dumps
+		return func() {
+			d, ok := dumpOf(c.A)
+			if !ok {
+				results[0], results[1] = "rejected", "rejected"
+				return
+			}
+			ld := func() string {
+				br := bufio.NewReaderSize(bytes.NewReader(append(append([]byte{}, d...), d...)), 8192)
+				var sb strings.Builder
+				for i := 0; i < 2; i++ {
+					var out, log bytes.Buffer
+					p, err := bcl.LoadProg(br, "n", bcl.OptOutput(&out), bcl.OptLogger(&log))
+					if err != nil {
+						fmt.Fprintf(&sb, "load%d err=%v ", i, err)
+						continue
+					}
+					bl, bi, xerr := bcl.Execute(p)
+					sb.WriteString(impl.Ran{Blocks: bl, Binding: bi, Err: xerr, Out: out.String()}.Summary() + " ")
+				}
+				return sb.String()
+			}
+			par(ld, ld)()
+		}
 	case "introspect2":
 		// two independent calls with disassembly, trace and statistics on, each into writers of its own
-		return par(func() string { return impl.Interpret(c.A, bcl.OptDisasm(true), bcl.OptTrace(true), bcl.OptStats(true)).Summary() },
-			func() string { return impl.Interpret(c.B, bcl.OptDisasm(true), bcl.OptTrace(true), bcl.OptStats(true)).Summary() })
+		return par(func() string {
+			return impl.Interpret(c.A, bcl.OptDisasm(true), bcl.OptTrace(true), bcl.OptStats(true)).Summary()
+		},
+			func() string {
+				return impl.Interpret(c.B, bcl.OptDisasm(true), bcl.OptTrace(true), bcl.OptStats(true)).Summary()
+			})
 	case "interpret2":
 		return par(func() string { return impl.Interpret(c.A).Summary() }, func() string { return impl.Interpret(c.B).Summary() })
 	case "opts2":
@@ -444,7 +483,7 @@ func init() {
 		ID:    "C12",
 		Level: "model_checking",
 		Rule: "controlled-scheduler exploration with a happens-before race detector: the package is rewritten so that every access to a package-level variable, to an addressable field of a struct type of package bcl and to a captured local is logged; vector clocks advance only on the program's own synchronisation (channel send->receive, close->receive, go->start, unlock->lock, WaitGroup), not on scheduler hand-offs. " +
-			"Harness bodies: (a) the ParseFile pipeline on multi-chunk inputs whose first chunk has syntax errors while later chunks hold newlines (parser formats diagnostics while the lexer appends line ends), valid multi-chunk input, early lexical failure; (b) two concurrent callers: Parse||Parse, ParseFile||ParseFile, Parse+ParseFile+LoadProg by two callers that pass one shared options slice with spare capacity, Interpret||Interpret on different inputs (also with disassembly, trace and statistics on), Unmarshal||Unmarshal, Execute||Execute (also with per-call loggers/outputs/options), Execute||Dump and Dump||Dump on one shared Prog with a locked output writer, LoadProg+Execute pairs, Bind||Bind. " +
+			"Harness bodies: (a) the ParseFile pipeline on multi-chunk inputs whose first chunk has syntax errors while later chunks hold newlines (parser formats diagnostics while the lexer appends line ends), valid multi-chunk input, early lexical failure; (b) two concurrent callers: Parse||Parse, ParseFile||ParseFile, Parse+ParseFile+LoadProg by two callers that pass one shared options slice with spare capacity, Interpret||Interpret on different inputs (also with disassembly, trace and statistics on), Unmarshal||Unmarshal, Interpret||Interpret without any output/logger option (process-wide defaults), LoadProg twice from a caller-owned *bufio.Reader by each of two callers, Execute||Execute (also with per-call loggers/outputs/options), Execute||Dump and Dump||Dump on one shared Prog with a locked output writer, LoadProg+Execute pairs, Bind||Bind. " +
 			"ALL schedules with <=B preemptions (quick 1, thorough 2; Execute pairs B+1) are executed for the pipeline and the Execute/Dump/Bind pairs; the Parse/ParseFile/Interpret pairs (7-9 goroutines) use delay bounding: a deterministic scheduler plus every placement of <=B+1 deviations; on each: no unordered conflicting access pair, no deadlock/panic, and each call's result equals its sequential result. Every scenario is explored once more (<=1 preemption) in a process of its own that has done nothing before, so that state built on first use is built inside a scheduled execution.",
 		Subs:           []*fw.Sub{subC12, subC12Cold},
 		BudgetQuick:    100,
@@ -500,6 +539,8 @@ func init() {
 			// string constants longer than any fixed scratch size (a shared, growing buffer would be re-assigned)
 			c.Do(subC12, &c12Case{Scenario: "dump2", A: "print \"" + strings.Repeat("s", 90) + "\"\nprint \"" + strings.Repeat("t", 300) + "\"\ndef b \"" + strings.Repeat("n", 5000) + "\" { x = 1 }", Bound: bound + 1})
 			c.Do(subC12, &c12Case{Scenario: "bind2", A: "def c11target \"nm\" { x = 3 }\nbind c11target -> struct", Bound: bound})
+			c.Do(subC12, &c12Case{Scenario: "defaults2", A: "def a { x = 1 }\nbind a -> struct", B: "var v = 2\ndef b { y = v }", Bound: bound + 1, Delay: true})
+			c.Do(subC12, &c12Case{Scenario: "loadbufio2", A: "var a = 1\ndef b \"n\" { x = a }\nbind b -> struct", Bound: bound + 1})
 			c.Bound("preemption_bound", bound)
 		},
 		Finish: func(m *fw.Merged) []string {
@@ -539,6 +580,8 @@ func RacePass() int {
 		{Scenario: "parsefile2", A: big, B: big, Script: one},
 		{Scenario: "interpret2", A: strings.Repeat("print 1+2\n", 300), B: strings.Repeat("def b { x = 1 }\n", 200)},
 		{Scenario: "introspect2", A: strings.Repeat("print 1+2\n", 300), B: strings.Repeat("def b { x = 1 }\n", 200)},
+		{Scenario: "defaults2", A: strings.Repeat("def a { x = 1 }\n", 100), B: strings.Repeat("def b { y = 2 }\n", 100)},
+		{Scenario: "loadbufio2", A: strings.Repeat("print 1\n", 100) + "def b \"n\" { x = 1 }\nbind b -> struct"},
 		{Scenario: "exec2", A: strings.Repeat("print 1\n", 200) + "def b \"n\" { x = 1 }\nbind b -> struct"},
 		{Scenario: "execdump", A: strings.Repeat("print 1\n", 200) + "def b \"n\" { x = 1 }\nbind b -> struct"},
 		{Scenario: "exec2opts", A: strings.Repeat("print 1\n", 200) + "def b \"n\" { x = 1 }\nbind b -> struct\nbind b -> struct"},
